@@ -362,6 +362,56 @@ pub fn get_dlt_infos_from_read<R: Read>(
 // const MS_PER_SEC:u32 = 1_000;
 
 /// const for micro-secs (us) per second
+/// Named schedule points for the verification harness (compiled only with `--cfg adlt_verif`).
+/// A harness widens a narrow timing window by registering a delay for a point, either through
+/// `set_delay` (in-process) or through the environment of a spawned binary:
+/// `ADLT_VERIF_DELAY="lc_before_final_refresh=50,remote_after_drain=20"` (milliseconds).
+/// Without a registered delay a point does nothing.
+#[cfg(adlt_verif)]
+pub mod verif_sched {
+    use std::collections::HashMap;
+    use std::sync::{Mutex, OnceLock};
+
+    static DELAYS: OnceLock<Mutex<HashMap<String, u64>>> = OnceLock::new();
+
+    fn delays() -> &'static Mutex<HashMap<String, u64>> {
+        DELAYS.get_or_init(|| {
+            let mut m = HashMap::new();
+            if let Ok(s) = std::env::var("ADLT_VERIF_DELAY") {
+                for kv in s.split(',') {
+                    if let Some((k, v)) = kv.split_once('=') {
+                        if let Ok(ms) = v.trim().parse::<u64>() {
+                            m.insert(k.trim().to_string(), ms);
+                        }
+                    }
+                }
+            }
+            Mutex::new(m)
+        })
+    }
+
+    /// register (Some(ms)) or remove (None) the delay of a schedule point
+    pub fn set_delay(name: &str, ms: Option<u64>) {
+        let mut m = delays().lock().unwrap();
+        match ms {
+            Some(ms) => {
+                m.insert(name.to_string(), ms);
+            }
+            None => {
+                m.remove(name);
+            }
+        }
+    }
+
+    /// a schedule point: sleeps for the registered delay, if any
+    pub fn point(name: &str) {
+        let ms = delays().lock().unwrap().get(name).copied();
+        if let Some(ms) = ms {
+            std::thread::sleep(std::time::Duration::from_millis(ms));
+        }
+    }
+}
+
 pub const US_PER_SEC: u64 = 1_000_000;
 
 pub fn utc_time_from_us(time_us: u64) -> chrono::NaiveDateTime {
